@@ -10,8 +10,21 @@ from common import ModelError, R, Rmat, flmat, max_rel_err
 
 from common import wiring_pre_build as pre_build  # noqa: E402,F401
 
-LEAN_MODULES = ["PyomaVerif.Props.C03", "PyomaVerif.Props.C01", "PyomaVerif.Props.WiringRun", "PyomaVerif.Props.C03C11", "PyomaVerif.Props.C03E2E"]
+LEAN_MODULES = ["PyomaVerif.Props.C03", "PyomaVerif.Props.C01", "PyomaVerif.Props.WiringRun", "PyomaVerif.Props.C03C11", "PyomaVerif.Props.C03E2E", "PyomaVerif.Props.C03Split"]
 THEOREMS = [
+    # the split composed with the identification: user's datasets + ref_ind -> pre_multisetup -> what SSI_multi_setup hands to
+    # build_hank -> C03_e2e_* (Props/C03Split.lean, Lemmas/MsGather.lean, Model/MsGather.lean); "after every preprocessing step"
+    # through PV.C14.C14_invariant_multi
+    "PV.C03Split.C03_split_models_agree",
+    "PV.C03Split.C03_split_every_step",
+    "PV.C03Split.C03_data_every_step",
+    "PV.C03Split.C03_handover",
+    "PV.C03Split.C03_e2e_cov_split",
+    "PV.C03Split.Ex.recovered",
+    "PV.MsGather.preMultisetupRec_ok",
+    "PV.MsGather.vstack_gather",
+    "PV.MsGather.preSplit_eq_foldl",
+    "PV.C14.C14_invariant_multi",
     # end to end: per-setup records -> Hankel -> per-setup factor -> re-basing -> Obs_all -> realisation -> extraction
     # (Props/C03E2E.lean, Lemmas/MsFreeVib.lean)
     "PV.MsFreeVib.rebase_deficient",
